@@ -75,13 +75,13 @@ Proof.
     apply (Permutation_in _ Hp') in Hoo. specialize (Ho r o Hr Hoo). destruct asc; now apply Z.leb_le.
 Qed.
 
-Theorem sem_b_iff re_match parse_float q c d res :
+Theorem sem_b_iff {RG : ReGroups} re_match parse_float q c d res :
   sem_b re_match parse_float q c d res = true <-> logql_sem re_match parse_float q c d res.
 Proof.
   unfold sem_b, logql_sem. destruct (c_limit c =? 0)%Z; [apply perm_b_iff|apply topk_b_iff].
 Qed.
 
-Theorem sem2_b_iff re_match parse_float json_get hash_labels q c d res :
+Theorem sem2_b_iff {RG : ReGroups} re_match parse_float json_get hash_labels q c d res :
   sem2_b re_match parse_float json_get hash_labels q c d res = true
   <-> logql_sem2 re_match parse_float json_get hash_labels q c d res.
 Proof.
